@@ -766,6 +766,16 @@ def compare_hist(h, impl, model):
                     a, b = c(i.get(f, "")), c(m.get(f, ""))
                 if a != b:
                     diffs.append((f, a, b))
+            # a DV that no record of the log names any more (not carried over by a manifest rewrite) leaves
+            # the pairing: after everything was deleted, compacted and the database reopened, row-set and DV
+            # ids legitimately start again at 0, and a stale entry would rename the new DV of the same name
+            # (false alarm corr:delete:man of the thorough tier, round 7)
+            recs = i.get("man", "").split()
+            # (the whole log is canonicalised at every step, so an entry stays as long as ANY record of the
+            # log - AddDV or DeleteDV - still names the DV; a manifest rewrite at reopen drops the dead ones)
+            live_dv = set(x[3:] for x in recs if x.startswith("AV:") or x.startswith("DV:"))
+            for x in [x for x in dvmap if x not in live_dv]:
+                del dvmap[x]
         elif ("tabs" in i) != ("tabs" in m):
             diffs.append(("shape", "tabs" in i, "tabs" in m))
         corr_pending = diffs[0] if diffs else None
